@@ -9,7 +9,7 @@ L3: the property statement evaluated directly on the implementation with numpy (
     proportion 0, every simplex vector accepted, every vector summing above 1 rejected, removal = weighted sum,
     reorder = transpose and its inverse.
 """
-import math, itertools, re
+import math, itertools, re, sys
 from fractions import Fraction
 import numpy as np
 from . import common, gen
@@ -161,6 +161,13 @@ def integrate_out(a, g, ax):
     w = weights(g)
     return np.tensordot(a, w, axes=([ax], [0]))
 
+def total_mass(a, grids):
+    """full d-dimensional trapezoid sum Σ_idx Π_m w_m[idx_m]·a[idx] (written from the trapezoid rule)"""
+    t = np.asarray(a, dtype=float)
+    for ax in range(t.ndim - 1, -1, -1):
+        t = integrate_out(t, grids[ax], ax)
+    return float(t)
+
 def full_coefs(d, dest, fs):
     """coefficient of every population in the mixed frequency, from the documentation: sources in ascending order,
     the destination (constructors: the last old population) keeps 1 - sum"""
@@ -259,6 +266,10 @@ def case_fn(chk, ctx, name, fs, grids, phi, do_k=True, kinds=None):
         if not err <= RTOL_L3 * scale:
             chk.fail('newpop_marginal:%s%s' % (name, gtag), 'integrating the new population out of %s changes the density of the existing ones by %.3g (scale %.3g)'
                      % (name, err, scale), inp)
+        m0 = total_mass(phi, grids[:d]); m1 = total_mass(out, list(grids[:d]) + [zz])
+        ma = total_mass(np.abs(phi), grids[:d]) or 1.0
+        if not (np.isfinite(m1) and abs(m1 - m0) <= RTOL_L3 * ma):
+            chk.fail('newpop_mass:%s%s' % (name, gtag), '%s changes the total mass: %.17g -> %.17g' % (name, m0, m1), inp)
         # support: at most two adjacent non-zero entries, bracketing the mixed frequency
         coefs = full_coefs(d, None, fs)
         ad = mixed_freq(grids[:d], coefs, phi.shape)
@@ -301,6 +312,10 @@ def case_fn(chk, ctx, name, fs, grids, phi, do_k=True, kinds=None):
             chk.fail('pulse_marginal:%s%s' % (name, gtag),
                      '%s changes the joint density of the other populations: marginal over population %d differs by %.3g (scale %.3g)%s'
                      % (name, dest + 1, err, sc, '' if sg else ' [own grid per population]'), inp)
+        m0 = total_mass(phi, grids); m1 = total_mass(out, grids)
+        ma = total_mass(np.abs(phi), grids) or 1.0
+        if not (np.isfinite(m1) and abs(m1 - m0) <= RTOL_L3 * ma):
+            chk.fail('pulse_mass:%s%s' % (name, gtag), '%s changes the total mass: %.17g -> %.17g' % (name, m0, m1), inp)
         if all(x == 0 for x in fs):
             e0 = float(np.max(np.abs(out - phi)))
             if not e0 <= 1e-12 * scale:
@@ -437,6 +452,11 @@ def case_remove(chk, ctx, xx, phi, popnum):
     err = float(np.max(np.abs(out - exp)))
     if out.shape != exp.shape or not err <= 1e-12 * (float(np.max(np.abs(phi))) or 1.0):
         chk.fail('remove:remove_pop', 'remove_pop(popnum=%d) is not the trapezoid marginalisation of that axis: off by %.3g' % (popnum, err), inp)
+        return
+    m0 = total_mass(phi, [xx] * phi.ndim); m1 = total_mass(out, [xx] * out.ndim) if out.ndim else float(out)
+    if not abs(m1 - m0) <= 1e-12 * (total_mass(np.abs(phi), [xx] * phi.ndim) or 1.0):
+        chk.fail('remove:mass', 'remove_pop changes the total mass: %.17g -> %.17g' % (m0, m1), inp)
+    case_mass(chk, ctx, phi, [xx] * phi.ndim)
 
 def case_filter(chk, ctx, xx, phi, tokeep):
     PM = ctx['dadi'].PhiManip; driver = ctx['driver']
@@ -469,6 +489,10 @@ def case_filter(chk, ctx, xx, phi, tokeep):
     err = float(np.max(np.abs(out - exp))) if out.shape == np.shape(exp) else float('inf')
     if not err <= 1e-12 * (float(np.max(np.abs(phi))) or 1.0):
         chk.fail('remove:filter_pops', 'filter_pops(tokeep=%r) is not the marginalisation over the other populations: off by %.3g' % (list(tokeep), err), inp)
+        return
+    m0 = total_mass(phi, [xx] * d); m1 = total_mass(out, [xx] * out.ndim) if out.ndim else float(out)
+    if not abs(m1 - m0) <= 1e-12 * (total_mass(np.abs(phi), [xx] * d) or 1.0):
+        chk.fail('remove:mass', 'filter_pops changes the total mass: %.17g -> %.17g' % (m0, m1), inp)
 
 def case_reorder(chk, ctx, phi, neworder, grids=None):
     PM = ctx['dadi'].PhiManip; driver = ctx['driver']
@@ -515,6 +539,206 @@ def case_reorder(chk, ctx, phi, neworder, grids=None):
         if not abs(float(t0) - float(t1)) <= 1e-12 * abs(float(t0)):
             chk.fail('reorder:mass', 'total mass changes under reorder_pops: %.17g vs %.17g' % (float(t0), float(t1)), inp)
 
+
+# ------------------------------------------------------------------------------------------ round 4: total mass (K), commutation, float guard
+def case_mass(chk, ctx, phi, grids):
+    """K: `totalMass` of the model = Numerics.trapz of the implementation applied to every axis in turn"""
+    driver = ctx['driver']
+    if driver is None or not driver.ok():
+        return
+    Num = ctx['dadi'].Numerics
+    phi = np.asarray(phi, dtype=float); grids = [np.asarray(g, dtype=float) for g in grids]
+    if phi.ndim == 0 or not np.all(np.isfinite(phi)):
+        return
+    t = phi
+    for ax in range(phi.ndim):                    # always axis 0 of what is left, with the grid of that population
+        t = Num.trapz(t, grids[ax], axis=0)
+    impl = float(t)
+    inp = dict(op='mass', grids=[g.tolist() for g in grids], shape=list(phi.shape), phi=phi.ravel().tolist())
+    ans = driver.ask('c06 mass %s %s' % (fmt_grids(grids), fmt_nd(phi)))
+    chk.stat('k:mass')
+    if not ans.startswith('ok '):
+        chk.k_bad('total_mass', inp, repr(impl), ans[:200], None); return
+    m = float(Fraction(ans[3:].strip()))
+    sc = total_mass(np.abs(phi), grids) or 1.0
+    (chk.k_ok('total_mass') if abs(impl - m) <= RTOL_K * sc else chk.k_bad('total_mass', inp, repr(impl), repr(m), abs(impl - m)))
+
+PULSE_BY = dict(((d, dest), n) for n, d, dest in PULSES)
+
+def case_pulse_remove(chk, ctx, name, rng, tier):
+    """L3: a pulse commutes with the removal of a population that contributes nothing to it (proportion 0):
+       remove_pop(pulse_d(phi), a) = pulse_{d-1}(remove_pop(phi, a)) — both sides computed by the implementation"""
+    d, dest = SPEC[name]
+    if dest is None or d < 3:
+        return
+    PM = ctx['dadi'].PhiManip
+    lo, hi = SIZES[tier][d]
+    n = int(rng.integers(lo, hi + 1))
+    g, gk = gen_grid(rng, n)
+    phi = gen.density(rng, (n,) * d)
+    a = int(rng.choice([m for m in range(d) if m != dest]))
+    fs, _ = gen_props(rng, d - 1, 'interior')
+    pa = a if a < dest else a - 1                 # position of population a among the proportions
+    fs[pa] = 0.0
+    out, exc = call_impl(ctx, name, fs, [g] * d, phi)
+    chk.l3((name, 'pulse_remove_comm', a)); chk.stat('l3:pulse_remove_comm')
+    inp = inp_fn(name, fs, [g] * d, phi); inp['removed'] = a + 1
+    if exc is not None:
+        chk.fail('pulse_marginal:%s:raises:%s' % (name, type(exc).__name__), '%s raises %r on valid arguments' % (name, exc), inp); return
+    lhs = np.asarray(PM.remove_pop(out, g, a + 1))
+    dest2 = dest if dest < a else dest - 1
+    name2 = PULSE_BY[(d - 1, dest2)]
+    fs2 = [x for i, x in enumerate(fs) if i != pa]
+    rhs, exc2 = call_impl(ctx, name2, fs2, [g] * (d - 1), np.asarray(PM.remove_pop(phi.copy(), g, a + 1)))
+    if exc2 is not None:
+        chk.fail('pulse_marginal:%s:raises:%s' % (name2, type(exc2).__name__), '%s raises %r on valid arguments' % (name2, exc2), inp); return
+    err = float(np.max(np.abs(lhs - rhs))); sc = float(np.max(np.abs(rhs))) or 1.0
+    if not err <= 1e-10 * sc:
+        chk.fail('pulse_remove_comm:%s' % name, '%s followed by remove_pop(%d) differs from remove_pop(%d) followed by %s (population %d has proportion 0): %.3g (scale %.3g)'
+                 % (name, a + 1, a + 1, name2, a + 1, err, sc), inp)
+
+def case_pulse_twice(chk, ctx, name, rng, tier):
+    """L3: two pulses into the same population leave the joint density of the others unchanged"""
+    d, dest = SPEC[name]
+    if dest is None:
+        return
+    lo, hi = SIZES[tier][d]
+    n = int(rng.integers(lo, hi + 1))
+    g, gk = gen_grid(rng, n)
+    phi = gen.density(rng, (n,) * d)
+    f1, _ = gen_props(rng, d - 1, 'interior'); f2, _ = gen_props(rng, d - 1, 'interior')
+    o1, e1 = call_impl(ctx, name, f1, [g] * d, phi)
+    if e1 is not None: return
+    o2, e2 = call_impl(ctx, name, f2, [g] * d, o1)
+    chk.l3((name, 'pulse_twice')); chk.stat('l3:pulse_twice')
+    inp = inp_fn(name, f2, [g] * d, o1)
+    if e2 is not None:
+        chk.fail('pulse_marginal:%s:raises:%s' % (name, type(e2).__name__), '%s raises %r on the result of a pulse' % (name, e2), inp); return
+    a = integrate_out(o2, g, dest); b = integrate_out(phi, g, dest)
+    err = float(np.max(np.abs(a - b))); sc = float(np.max(np.abs(b))) or 1.0
+    if not err <= 10 * RTOL_L3 * sc:
+        chk.fail('pulse_marginal:%s:twice' % name, 'two successive %s change the joint density of the other populations by %.3g (scale %.3g)' % (name, err, sc), inp)
+
+def _float_of_fraction_down(r):
+    """largest double <= r (r a non-negative Fraction)"""
+    x = float(r)
+    if Fraction(x) > r:
+        x = float(np.nextafter(x, -np.inf))
+    return x
+
+PY_SUM = 'neumaier' if sys.version_info >= (3, 12) else 'seq'
+
+def float_guard_vectors(rng, nf, tries):
+    for t in range(tries):
+        kind = ['le1_tight', 'gt1_tight', 'generic', 'tenths', 'repeat'][t % 5]
+        if kind == 'generic':
+            w = rng.dirichlet(np.ones(nf + 1)); f = [float(x) for x in w[:nf]]
+        elif kind == 'tenths':
+            parts = rng.multinomial(10, np.ones(nf) / nf); f = [float(p) / 10.0 for p in parts]      # multiples of 0.1: exact sum = 1 +- ulps
+        elif kind == 'repeat':
+            f = [1.0 / nf] * nf
+        else:
+            w = rng.dirichlet(np.ones(nf)) if nf > 1 else np.array([1.0])
+            f = [float(x) * float(rng.uniform(0.5, 1.0)) for x in w]
+            rest = Fraction(1) - sum(Fraction(x) for x in f[:-1])
+            last = _float_of_fraction_down(rest)             # exact sum <= 1, less than one ulp below
+            if kind == 'gt1_tight':
+                last = float(np.nextafter(last, np.inf))     # exact sum > 1 by less than one ulp
+            f[-1] = last
+        if all(x >= 0 for x in f):
+            yield kind, f
+
+def case_float_guard_one(chk, ctx, name, kind, f):
+    d, dest = SPEC[name]
+    driver = ctx['driver']
+    PM = ctx['dadi'].PhiManip
+    grids = [np.array([0.0, 1.0])] * (d if dest is not None else d + 1)
+    tot = exact_sum(f)
+    for how, conv, alg in (('pyfloat', float, PY_SUM), ('npfloat64', np.float64, 'seq')):
+        args = [conv(x) for x in f]
+        try:
+            getattr(PM, name)(np.ones((2,) * d), *args, *grids); raised = False
+        except ValueError as e:
+            if 'non-sensible' not in str(e): raise
+            raised = True
+        chk.stat('floatguard:%s:%s' % (kind, how))
+        inp = dict(op='floatguard', fn=name, fs=[float(x) for x in f], kind=kind)
+        if driver is not None and driver.ok():
+            ans = driver.ask('c06 guardfl %s %s %s' % (name, alg, fmt_list(f)))
+            good = ans == ('ok 1' if raised else 'ok 0')
+            (chk.k_ok('float_guard:' + how) if good else chk.k_bad('float_guard:' + how, inp, 'raises' if raised else 'accepts', ans[:100], None))
+        chk.l3((name, 'floatguard', kind, how, tot > 1))
+        if tot <= 1 and raised:
+            chk.fail('simplex_accept:%s:roundoff' % name,
+                     '%s rejects proportions %r (passed as %s) whose exact sum %.17g is <= 1' % (name, f, how, float(tot)), inp)
+        if tot > 1 and not raised:
+            # sums above 1 by less than ~n ulp may be accepted by the float comparison (C06_simplex_reject_float): counted
+            chk.stat('floatguard:accepted_above_one_within_ulps')
+            if float(tot - 1) > 4 * 2.0 ** -52:
+                chk.fail('simplex_reject:%s' % name, '%s accepts proportions %r whose sum exceeds 1 by %.3g' % (name, f, float(tot - 1)), inp)
+
+def case_float_guard(chk, ctx, name, rng, tries):
+    """K: the generated FLOAT guard (binary64 rounding, `sum` = left fold for numpy scalars / Neumaier for Python floats on
+       CPython >= 3.12) against the implementation's accept/reject decision on boundary vectors;
+       L3: every non-negative vector whose EXACT sum is <= 1 is accepted, however the proportions are passed."""
+    d, dest = SPEC[name]
+    for kind, f in float_guard_vectors(rng, d - 1, tries):
+        case_float_guard_one(chk, ctx, name, kind, f)
+
+def case_rounding(chk, ctx, rng, n):
+    """K: the model's binary64 rounding and its two `sum` algorithms against the machine (exact comparison of doubles)"""
+    driver = ctx['driver']
+    if driver is None or not driver.ok():
+        return
+    for i in range(n):
+        kind = i % 4
+        if kind == 0:
+            r = Fraction(int(rng.integers(1, 10 ** 12)), int(rng.integers(1, 10 ** 12)))
+        elif kind == 1:       # midpoints between neighbouring doubles around 1, and their neighbourhoods
+            k = int(rng.integers(0, 6)); base = Fraction(1) + Fraction(k, 2 ** 52)
+            r = base + Fraction(int(rng.integers(-1, 2)), 2 ** 60) + Fraction(1, 2 ** 53)
+        elif kind == 2:
+            r = Fraction(int(rng.integers(1, 2 ** 60)), 2 ** int(rng.integers(50, 70)))
+        else:
+            r = Fraction(int(rng.integers(-10 ** 9, 10 ** 9)), 3 ** int(rng.integers(1, 30)))
+        ans = driver.ask('c06 rnd %d/%d' % (r.numerator, r.denominator))
+        impl = Fraction(float(r))            # Fraction -> float is correctly rounded (round-half-even)
+        good = ans.startswith('ok ') and Fraction(ans[3:].strip()) == impl
+        (chk.k_ok('rndDouble') if good else chk.k_bad('rndDouble', dict(op='rnd', x=str(r)), str(impl), ans[:100], None))
+    for i in range(n):
+        m = int(rng.integers(1, 7))
+        xs = [float(x) for x in rng.uniform(0, 1, m)] if i % 2 else [float(int(rng.integers(0, 11))) / 10.0 for _ in range(m)]
+        for how, conv, alg in (('pyfloat', float, PY_SUM), ('npfloat64', np.float64, 'seq')):
+            impl = Fraction(float(sum([conv(x) for x in xs])))
+            ans = driver.ask('c06 fsum %s %s' % (alg, fmt_list(xs)))
+            good = ans.startswith('ok ') and Fraction(ans[3:].strip()) == impl
+            (chk.k_ok('builtin_sum:' + how) if good else chk.k_bad('builtin_sum:' + how, dict(op='fsum', xs=xs, how=how), str(impl), ans[:100], None))
+
+def case_roundoff_corner(chk, ctx, rng, tier):
+    """proportions whose float remainder makes the corner cell's mixed frequency land one ulp ABOVE the last grid point
+       (0.2+0.2+0.2+(1-0.2-0.2-0.2) = 1.0000000000000002): the clamp path of _admixture_intermediates in a real call"""
+    for name in ('phi_4D_to_5D', 'phi_4D_admix_into_1', 'phi_4D_admix_into_2', 'phi_4D_admix_into_3', 'phi_4D_admix_into_4',
+                 'phi_3D_to_4D', 'phi_5D_admix_into_5', 'phi_5D_admix_into_2'):
+        d, dest = SPEC[name]
+        n = 3 if d == 5 else 4
+        g, _ = gen_grid(rng, n, 'exponential')
+        fs = {2: [0.2, 0.2], 3: [0.2, 0.2, 0.2], 4: [0.1, 0.2, 0.3, 0.1]}[d - 1]
+        grids = [g] * (d if dest is not None else d + 1)
+        phi = gen.density(rng, (n,) * d) + 0.5
+        top = 0.0
+        for c in full_coefs_float(name, fs):
+            top = top + c * 1.0
+        chk.stat('roundoff_corner:' + ('above_one' if top > 1.0 else 'at_or_below_one'))
+        case_fn(chk, ctx, name, fs, grids, phi, do_k=True, kinds=dict(props='roundoff_corner'))
+
+def full_coefs_float(name, fs):
+    """the coefficient vector with the remainder computed as the documentation writes it (1 - f1 - f2 - ..), in floats"""
+    d, dest = SPEC[name]
+    rem = 1.0
+    for x in fs: rem = rem - x
+    c = list(fs); c.insert(d - 1 if dest is None else dest, rem)
+    return c
+
 # ------------------------------------------------------------------------------------------ single cells of _admixture_intermediates (K)
 def case_cells(chk, ctx, rng, ncells):
     PM = ctx['dadi'].PhiManip; driver = ctx['driver']
@@ -550,6 +774,29 @@ def case_cells(chk, ctx, rng, ncells):
             if not (np.isfinite(a) and abs(a - b) <= 1e-9 * max(1.0, abs(b))): good = False
         (chk.k_ok('_admixture_intermediates') if good else
          chk.k_bad('_admixture_intermediates', inp, repr((int(lo[i]), int(up[i]), float(fl[i]), float(fu[i]), float(nm[i]))), ans[:300], None))
+        # L3 (C06_deposit_clamped / C06_deposit_mass): two distinct adjacent indices inside the grid whatever adz is, and the
+        # deposit integrates to phi — inside [z_0, z_last] always, beyond the ends as long as the overshoot is small
+        # against the last / first spacings (delta * neighbouring spacing < 1/2 * bracket width^2)
+        l_, u_ = int(lo[i]), int(up[i])
+        chk.l3(('cell', kinds[i], n))
+        if not (0 <= l_ and u_ == l_ + 1 and u_ <= n - 1):
+            chk.fail('support:_admixture_intermediates', 'lower/upper index (%d, %d) are not two adjacent grid points of a grid of %d points (adz = %.17g)'
+                     % (l_, u_, n, float(ad[i])), inp)
+            continue
+        d1 = float(zz[u_] - zz[l_])
+        if ad[i] > zz[-1]:
+            okc = (ad[i] - zz[-1]) * (float(zz[l_] - zz[l_ - 1]) if l_ > 0 else 0.0) < 0.5 * d1 * d1
+        elif ad[i] < zz[0]:
+            okc = (zz[0] - ad[i]) * (float(zz[u_ + 1] - zz[u_]) if u_ + 1 < n else 0.0) < 0.5 * d1 * d1
+        else:
+            okc = True
+        if okc:
+            w = weights(zz)
+            mass = w[l_] * fl[i] * nm[i] + w[u_] * fu[i] * nm[i]
+            if not (np.isfinite(mass) and abs(mass - phi[i]) <= 1e-9 * abs(phi[i])):
+                chk.fail('deposit_mass:_admixture_intermediates', 'the deposit of a cell with density %.6g and mixed frequency %.17g integrates to %.17g'
+                         % (float(phi[i]), float(ad[i]), float(mass)), inp)
+            chk.stat('l3:cell_mass:' + kinds[i])
 
 # ------------------------------------------------------------------------------------------ drivers of the check
 def gen_case(rng, name, tier, mode=None, pkind=None, bad=False):
@@ -637,6 +884,23 @@ def splits_and_bookkeeping(chk, ctx, rng, tier):
     case_filter(chk, ctx, xx, phi, [1, 2, 3])
     case_filter(chk, ctx, xx, phi, [])
 
+def round4_cases(chk, ctx, rng, tier):
+    names = [n for n, _ in CONSTRUCTORS] + [p[0] for p in PULSES]
+    case_rounding(chk, ctx, rng, 40 if tier == 'quick' else 400)
+    case_roundoff_corner(chk, ctx, rng, tier)
+    for name in names:
+        case_float_guard(chk, ctx, name, rng, 10 if tier == 'quick' else 100)
+        for _ in range(1 if tier == 'quick' else 6):
+            case_pulse_remove(chk, ctx, name, rng, tier)
+            case_pulse_twice(chk, ctx, name, rng, tier)
+    # total mass of the model against iterated Numerics.trapz, own grid per axis
+    for d in (1, 2, 3, 4, 5):
+        for _ in range(2 if tier == 'quick' else 8):
+            lo, hi = SIZES[tier][d]
+            shape = tuple(int(rng.integers(2, hi + 1)) for _ in range(d))
+            grids, _ = gen_grids(rng, shape, 'distinct', d)
+            case_mass(chk, ctx, gen.density(rng, shape), grids)
+
 def run(chk, ctx):
     tier = ctx['tier'] if ctx['tier'] in SIZES else 'quick'
     rng = common.Rng(ctx['seed'], 'C06')
@@ -661,6 +925,7 @@ def run(chk, ctx):
     ctx['chk'] = chk
     edge_cases(chk, ctx, rng, tier)
     splits_and_bookkeeping(chk, ctx, rng, tier)
+    round4_cases(chk, ctx, rng, tier)
     for rep in range(4 if tier == 'quick' else 20):
         case_cells(chk, ctx, rng, 24)
     for rep in range(4 if tier == 'quick' else 150):
@@ -674,7 +939,9 @@ def replay(chk, ctx, data):
     inp = data.get('input') or {}
     op = inp.get('op')
     ctx['chk'] = chk
-    if op == 'fn':
+    if op == 'fn' and (str(data.get('key', '')).startswith('pulse_remove_comm') or str(data.get('key', '')).endswith(':twice')):
+        run(chk, ctx)
+    elif op == 'fn':
         phi = np.array(inp['phi'], dtype=float).reshape(inp['shape'])
         kinds = dict(props='roundoff') if str(data.get('key', '')).endswith(':roundoff') else None
         grids = [np.array(g, dtype=float) for g in inp['grids']]
@@ -692,5 +959,11 @@ def replay(chk, ctx, data):
         case_filter(chk, ctx, inp['grid'], np.array(inp['phi'], dtype=float).reshape(inp['shape']), inp['tokeep'])
     elif op == 'reorder':
         case_reorder(chk, ctx, np.array(inp['phi'], dtype=float).reshape(inp['shape']), inp['neworder'])
+    elif op == 'floatguard':
+        case_float_guard_one(chk, ctx, inp['fn'], inp.get('kind', 'replay'), [float(x) for x in inp['fs']])
+    elif op == 'mass':
+        case_mass(chk, ctx, np.array(inp['phi'], dtype=float).reshape(inp['shape']), [np.array(g, dtype=float) for g in inp['grids']])
+    elif op == 'cell':
+        run(chk, ctx)
     else:
         run(chk, ctx)
